@@ -133,8 +133,10 @@ def injectHTTP (c : Ctx) (hdr : Bytes) : Except Err Bytes :=
   | .error e => .error e
   | .ok o => if hdr ≠ [] ∧ hdr ≠ o then .error .differentOrg else .ok o
 
-/-- `ExtractOrgIDFromHTTPRequest`. -/
-def extractHTTP (hdr : Bytes) : Except Err Ctx :=
+/-- `ExtractOrgIDFromHTTPRequest`: `recv` is the context the receiving request already carries
+(it may hold a stale identifier of the receiver); the code derives the result from it only as the
+parent of the new context, so the extracted identifier is the header's. -/
+def extractHTTP (_recv : Ctx) (hdr : Bytes) : Except Err Ctx :=
   if hdr = [] then .error .noOrgID else .ok (some hdr)
 
 /-- `InjectIntoGRPCRequest`: `md = none` when the key is absent from outgoing metadata. -/
@@ -147,24 +149,26 @@ def injectGRPC (c : Ctx) (md : Option (List Bytes)) : Except Err (List Bytes) :=
     | some [x] => if x ≠ o then .error .differentOrg else .ok [x]
     | some _ => .error .tooMany
 
-/-- `ExtractFromGRPCRequest` on the incoming metadata values of the key. -/
-def extractGRPC (vals : List Bytes) : Except Err Ctx :=
+/-- `ExtractFromGRPCRequest` on the incoming metadata values of the key; `recv` is the receiving
+context (possibly already holding an identifier), which must not influence the result. -/
+def extractGRPC (_recv : Ctx) (vals : List Bytes) : Except Err Ctx :=
   match vals with
   | [x] => .ok (some x)
   | _ => .error .noOrgID
 
-/-- One hop: the pre-existing header / metadata on the carrier is part of the hop. -/
+/-- One hop: the pre-existing header / metadata on the carrier and the context found on the
+receiving side are part of the hop. -/
 inductive Hop
-  | http (existing : Bytes)
-  | grpc (existing : Option (List Bytes))
+  | http (existing : Bytes) (recv : Ctx)
+  | grpc (existing : Option (List Bytes)) (recv : Ctx)
 
 def hop (c : Ctx) : Hop → Except Err Ctx
-  | .http ex => match injectHTTP c ex with
+  | .http ex recv => match injectHTTP c ex with
     | .error e => .error e
-    | .ok h => extractHTTP h
-  | .grpc ex => match injectGRPC c ex with
+    | .ok h => extractHTTP recv h
+  | .grpc ex recv => match injectGRPC c ex with
     | .error e => .error e
-    | .ok v => extractGRPC v
+    | .ok v => extractGRPC recv v
 
 /-- run a chain; on failure report the index of the failing hop. -/
 def chain (c : Ctx) : List Hop → Nat → Except (Err × Nat) Ctx
